@@ -18,7 +18,12 @@ ASSUMPTIONS = ["CPU only", "parameters rescaled by construction so that |log wei
 
 @st.composite
 def cases(draw, types=("positive", "complex"), nrange=(1, 5), nhrange=(1, 6)):
-    case = draw(gen.state_case(types=list(types), n=nrange, nh=nhrange, bound=300.0))
+    if draw(st.integers(0, 11)) == 0:
+        # beyond the property's box: larger registers / hidden layers (size-dependent code paths, e.g. chunking or caching by size)
+        case = draw(gen.state_case(types=list(types), n=(6, 10), nh=(1, 9), scales=[0.05, 0.5, 2.0], bound=300.0))
+        case["large"] = True
+    else:
+        case = draw(gen.state_case(types=list(types), n=nrange, nh=nhrange, bound=300.0))
     n = case["n"]
     case["idx"] = draw(gen.index_list(n, 1, 6))
     case["row"] = draw(st.integers(0, 2 ** n - 1))
